@@ -711,6 +711,7 @@ def gaussian_aggregate_replay(keys, alpha=0.9):
         {("AA", "a1"): 10, ("AA", "a2"): 0, ("BB", "b1"): 11},
         {("AA", "a1"): 3, ("AA", "a2"): 3},
         {("AA", "a1"): 12, ("AA", "a2"): 14, ("BB", "b1"): 2},
+        {("AA", "a1"): 3, ("BB", "b1"): 25},  # the state served by the fallback sorts BEFORE the one with its own model
     ]
     out = {"exc": None, "ok": True, "mismatches": []}
     for li, layout in enumerate(layouts):
